@@ -736,3 +736,27 @@ package expr
 //@       modifies nothing
 //@   let sch = prev(2, ranged(2)[rangeidx(2) + 1])
 //@   loop 2 step* apikey.attribute.required: prev(2, sch.Kind) == APIKeyKind && !hasTagSpec(prev(2, m.Payload), "security:apikey:" + prev(2, sch.SchemeName)) ==> len(verr.Errors) > prev(2, len(verr.Errors))
+
+// ---- a map cannot be a path parameter (C01) -------------------------------------------------------
+// The HTTP generators have no decoding for a map-typed path parameter (the generated server would not compile):
+// validation must reject it. The walker over the path parameters leaves one more error for a parameter whose
+// type is a map (IsMap abstracted as isMapSpec; the error reporter it is handed is assumed to record an error,
+// which is what the reporter defined beside it is proved to do).
+//@ smt (declare-fun isMapSpec (Iface) Bool)
+//@ func (*HTTPEndpointExpr).validateParams$1
+//@   params verr e name
+//@   property C01
+//@   requires verr != nil
+//@   ensures* records.an.error: len(verr.Errors) > old(len(verr.Errors))
+//@ func (*HTTPEndpointExpr).validateParams$2
+//@   property C01
+//@   captures invalidTypeErr:func(verr*eval.ValidationErrors,e*expr.HTTPEndpointExpr,namestring) verr:*eval.ValidationErrors e:*expr.HTTPEndpointExpr
+//@   opt captured private
+//@   requires a != nil && verr != nil
+//@   callspec invalidTypeErr params v ep n
+//@       ensures len(v.Errors) > old(len(v.Errors))
+//@       modifies v.Errors, v.Expressions, elems(v.Errors), elems(v.Expressions)
+//@   callspec IsMap params dt
+//@       ensures result == isMapSpec(dt)
+//@       modifies nothing
+//@   ensures* map.path.parameter.rejected: isMapSpec(old(a.Type)) ==> len(captured(verr).Errors) > old(len(verr.Errors))
